@@ -74,6 +74,29 @@ def literal_message(fn, c):
     return ""
 
 
+def _named(nkey):
+    return re.sub(r"(::\{closure#\d+\})+$", "", nkey)
+
+
+def owner_name(fn, depth=4):
+    """Name under which a panic site is filed: the named function containing it; and when that function is a private helper
+    with a single calling function (and no rule names it), the caller - transitively.  Extracting a step into a helper, or
+    moving it into / out of a closure, keeps the site's key."""
+    facts = fn.facts
+    name = _named(fn.nkey)
+    from core import atoms
+    for _ in range(depth):
+        cands = facts.by_norm.get(name) or []
+        g = cands[0] if len(cands) == 1 else None
+        if g is None or g.d.get("impl_trait") or g.d.get("reachable") or name in atoms():
+            break
+        callers = {_named(c.fn.nkey) for c in facts.call_sites_of(name)} - {name}
+        if len(callers) != 1:
+            break
+        name = callers.pop()
+    return name
+
+
 class Site:
     def __init__(self, fn, bb, kind, callee, msg, macro, noise):
         self.fn = fn
@@ -102,7 +125,7 @@ class Site:
         m = (self.msg or "")[:48]
         # closures and async blocks are attributed to the named function that contains them: moving a step into or out
         # of a closure (combinator <-> match) does not rename the site
-        base = re.sub(r"(::\{closure#\d+\})+$", "", self.fn.nkey)
+        base = owner_name(self.fn)
         k = "%s|%s|%s%s" % (base, self.kind, norm(self.callee).split("::")[-1] if self.callee else "", ("|" + m) if m else "")
         pr = self.producer()
         if pr is not None:
@@ -168,6 +191,8 @@ def auto_discharge(facts, s):
     t = f.term(s.bb)
     if s.noise:
         return ("third-party-macro", "inside an expansion of a %s macro: independent of request values (listed once per macro)" % s.noise)
+    if s.kind == "assert-Overflow":
+        return ("debug-overflow-check", "integer overflow check: compiled only with overflow-checks (debug profile); wrapping in release builds - not a release-profile panic (assumption, listed)")
     if in_debug_assert(t):
         return ("debug-assertion", "inside debug_assert!: compiled out when cfg(debug_assertions) is off; the property is decided for the release profile and the "
                 "assertion is taken as the maintainers' statement of an internal invariant (assumption, listed in the evidence)")
